@@ -13,7 +13,7 @@ from vf.ref import linalg as L
 
 RULE = (
     "Hypothesis draws an operation recipe: a gate of the shared gate table (all unitary, qudit and channel families, plus "
-    "local KrausChannel / MixedUnitaryChannel / StatePreparationChannel / BooleanHamiltonianGate / Pauli singletons / "
+    "local multi-qubit CliffordGate (constants + from_op_list) / KrausChannel / MixedUnitaryChannel / StatePreparationChannel / BooleanHamiltonianGate / Pauli singletons / "
     "qudit ResetChannel / qudit X,Z rows) with special+continuous parameters, "
     "placed on Line/Grid/Named qubits or qids at drawn (non-ascending, non-adjacent) positions, wrapped 0-3 times by "
     "with_tags, with_qubits(permutation), controlled_by / ControlledOperation / gate.controlled / ControlledGate with "
@@ -611,8 +611,10 @@ _CLIFF_M = {"H": O._H, "S": O._S, "CX": O._CX, "X": L.PX, "CZ": np.diag([1, 1, 1
 
 
 def _acton_case(pred, kinds=O.ALL_WRAPPERS):
+    ops = st.one_of(O.op_recipes(pred, kinds=kinds), O.op_recipes(pred, kinds=kinds), O.op_recipes(pred, kinds=kinds),
+                    O.op_recipes(lambda f: f.name == "CliffordN", kinds=("tag", "perm", "inv", "pow", "circ")))
     return st.fixed_dictionaries({
-        "op": O.op_recipes(pred, kinds=kinds), "lvl": st.sampled_from(["op", "op", "gate"]),
+        "op": ops, "lvl": st.sampled_from(["op", "op", "gate"]),
         "idle": st.integers(0, 8),   # base-3 digits: 0 none, 1 -> qubit, 2 -> qutrit (two idle wires at most)
         "o": st.integers(0, 5039), "vals": st.lists(G.small_floats(), min_size=2, max_size=2),
         "pick": st.integers(0, 63), "u": st.floats(0, 1, exclude_max=True).map(lambda x: round(x, 4)),
